@@ -17,7 +17,7 @@ import numpy as np
 from ixverif import choice
 from ixverif.choice import Violation
 from ixverif.explharness import Harness, alphabet
-from ixverif.spies import EventLog, Injected, InjectedStop, Injector, Loss, Model, make_storage_spy, make_imputer_spy
+from ixverif.spies import EventLog, Injected, InjectedInterrupt, InjectedStop, Injector, Loss, Model, make_storage_spy, make_imputer_spy
 from checks import sage_common as sc
 
 LEVEL = 'fault_enumeration'
@@ -160,14 +160,16 @@ def make_driver(cfg, T, asize=2, K=None):
                 k = run.choose(K + 1, 'fault-position', None, 1, keep_default=True) if (attempt < 2 and K) else 0
                 before = snapshot(ex)
                 # the class of the user exception: an instance of all common built-in classes, or StopIteration
-                h.inj.exc_class = InjectedStop if (k > 0 and run.choose(2, 'exception-class', None, 0)) else Injected
+                h.inj.exc_class = (Injected, InjectedStop, InjectedInterrupt)[run.choose(3, 'exception-class', None, 0) if k > 0 else 0]
                 h.inj.begin_call(armed=k if k > 0 else None)
                 try:
                     call(dict(x), y)
                     raised = None
-                except (Injected, InjectedStop) as e:
+                except (Injected, InjectedStop, InjectedInterrupt) as e:
                     raised = e
-                except Exception as e:      # any other exception: fine only if it wraps the injected one
+                except BaseException as e:      # any other exception: fine only if it wraps the injected one
+                    if isinstance(e, (KeyboardInterrupt, SystemExit)) and not isinstance(e, InjectedInterrupt):
+                        raise
                     raised = e
                 fired = h.inj.fired
                 stats['maxcount'] = max(stats['maxcount'], h.inj.count)
